@@ -26,6 +26,10 @@ def check(run: Run) -> None:
     run.rule("C17.R2", "marker tables: the link markers recognised by the word scan equal those dispatched by _open_link; stripped punctuation is disjoint from kind prefixes and brackets")
     run.rule("C17.R3", "option arithmetic: one target opens directly, option k selects element k-1, -1 the last, no option prompts with the targets in scan order")
     run.rule("C17.R4", "ID links: 'several pages' is decided on distinct pages")
+    run.rule("C17.R5", "ZID targets: every ZID the allocator can issue (YYMMDD#A^2, YYMMDD#A^3) is in the language is_zid accepts, so a word carrying one is offered as a target")
+    from .c07 import is_zid_accepts_allocated
+
+    is_zid_accepts_allocated(run, model, "C17.R5")
     slice_ = sorted(model.reachable([F_OPEN]))
     run.floor("functions reachable from run_action_open", len(slice_), 40)
     n_out = 0
